@@ -107,6 +107,7 @@ def _prepare(fid, kf_entries):
 
 
 PATHSCAN = -1000000
+PATHCHUNK = 6
 
 
 def _solve_one(job):
@@ -114,11 +115,13 @@ def _solve_one(job):
     from pyvc.verify import check_obligation, check_cover, run_cvc5, check_paths
     import z3
     fid, vc, info, items = _PREP[fi]
-    if oi == PATHSCAN:
-        res = check_paths(vc, info["paths"])
-        dead = sorted(set("%s:%d:%d" % (p["function"], p["line"], p["branch"]) for p in info["paths"]
+    if oi <= PATHSCAN:
+        ch = PATHSCAN - oi
+        part = info["paths"][ch * PATHCHUNK:(ch + 1) * PATHCHUNK]
+        res = check_paths(vc, part)
+        dead = sorted(set("%s:%d:%d" % (p["function"], p["line"], p["branch"]) for p in part
                           if res.get(p["name"]) == "dead"))
-        return (fi, oi, {"paths": len(info["paths"]), "dead": dead})
+        return (fi, oi, {"paths": len(part), "dead": dead})
     if oi < 0:
         name, pcs = info["covers"][-oi - 1]
         return (fi, oi, {"cover": name, "result": check_cover(vc, pcs)})
@@ -305,8 +308,9 @@ def run_check(prop, args, seed, t0):
             sjobs.append((fi, oi, rlimit, tier == "thorough"))
         for ci in range(len(info.get("covers", []))):
             sjobs.append((fi, -ci - 1, rlimit, False))
-        if info.get("paths"):
-            sjobs.append((fi, PATHSCAN, rlimit, False))
+        npaths = len(info.get("paths") or [])
+        for ch in range((npaths + PATHCHUNK - 1) // PATHCHUNK):
+            sjobs.append((fi, PATHSCAN - ch, rlimit, False))
     bfids = [f for f in cfg.get("bounded", [])]
     bjobs = [(f, tier, seed, regions_by_fid.get(f)) for f in bfids]
     has_bounded = os.path.exists(os.path.join(HERE, "harness", "b_%s.py" % prop.lower())) \
@@ -344,8 +348,11 @@ def run_check(prop, args, seed, t0):
                 continue
             if oi >= 0:
                 obls[oi] = rec
-            elif oi == PATHSCAN:
-                pathscan = rec
+            elif oi <= PATHSCAN:
+                if pathscan is None:
+                    pathscan = {"paths": 0, "dead": []}
+                pathscan["paths"] += rec["paths"]
+                pathscan["dead"] = sorted(set(pathscan["dead"]) | set(rec["dead"]))
             else:
                 covers.append((rec["cover"], rec["result"]))
         presults.append({"fid": fid, "status": info["status"], "error": info.get("error"), "sha": info.get("sha"),
